@@ -118,6 +118,11 @@ class Tensor:
         diagram = TensorDiagram(*edges)
         result = self.copy()
         result.array = diagram.calculate().array
+        # collection axes that only the transformation has are added in front of the indices of this tensor
+        offset = result.rank - self.rank
+        if offset > 0:
+            result._covariant_indices = {i + offset for i in self._covariant_indices}
+            result._contravariant_indices = {i + offset for i in self._contravariant_indices}
         return result
 
     @property
